@@ -29,11 +29,35 @@ fn main() {
         "schema" => schema::run(&repo, &out),
         "inventory" => inventory::run(&repo, &out),
         "display" => display::run(&repo).map(|v| v.iter().for_each(|l| println!("{l}"))),
-        "all" => corpus::run(&repo, &out)
-            .and_then(|_| callgraph::run(&repo, &out))
-            .and_then(|_| builder::run(&repo, &out))
-            .and_then(|_| schema::run(&repo, &out))
-            .and_then(|_| inventory::run(&repo, &out)),
+        "all" => {
+            // the corpus is needed by every oracle: its failure is fatal.  Every other extraction
+            // concerns specific properties: on failure it leaves an open obligation for exactly
+            // those (obl_translator_<name>.json) and the remaining extractions still run.
+            let r = corpus::run(&repo, &out);
+            if r.is_ok() {
+                let parts: [(&str, &[&str], fn(&Path, &Path) -> Result<(), String>); 4] = [
+                    ("callgraph", &["C03"], callgraph::run),
+                    ("builder", &["C19"], builder::run),
+                    ("schema", &["C16", "C17"], schema::run),
+                    ("inventory", &["C01", "C02", "C05", "C07", "C08", "C10", "C12", "C13", "C14", "C15"], inventory::run),
+                ];
+                for (name, props, f) in parts {
+                    let file = out.join(format!("obl_translator_{name}.json"));
+                    match f(&repo, &out) {
+                        Ok(()) => { let _ = fs::remove_file(&file); }
+                        Err(e) => {
+                            eprintln!("translator {name}: {e}");
+                            let mut m = serde_json::Map::new();
+                            for p in props {
+                                m.insert(p.to_string(), serde_json::json!({ format!("translator.{name}"): { "ok": false, "note": format!("extraction failed on the current source: {e}") } }));
+                            }
+                            write_if_changed(&file, &serde_json::to_string_pretty(&serde_json::Value::Object(m)).unwrap());
+                        }
+                    }
+                }
+            }
+            r
+        }
         c => Err(format!("unknown command {c}")),
     };
     if let Err(e) = r {
